@@ -17,6 +17,64 @@ FCON = {'max_field_section_size': 'F_mfs', 'enable_webtransport': 'F_wt', 'enabl
         'enable_datagram': 'F_dg', 'max_webtransport_sessions': 'F_wtmax'}
 
 
+def squash(t):
+    return re.sub(r'\s+', '', t)
+
+
+def tmpl(t):
+    """regex from a template: whitespace-insensitive literal text; holes written as <<name:regex>>; <<STR>> = any string literal"""
+    out, pos = [], 0
+    for m in re.finditer(r'<<(?:(\w+):)?(.*?)>>', t):
+        out.append(re.escape(squash(t[pos:m.start()])))
+        name, rx = m.group(1), m.group(2)
+        if rx == 'STR':
+            rx = r'"[^"]*"'
+        out.append('(?P<%s>%s)' % (name, rx) if name else '(?:%s)' % rx)
+        pos = m.end()
+    out.append(re.escape(squash(t[pos:])))
+    return re.compile(''.join(out))
+
+
+TRACE = r'<<(?:#\[cfg\(feature="tracing"\)\]tracing::\w+!\((?:[^()]|\([^()]*\))*\);)?>>'
+
+SETTERS = {'max_field_section_size': 'S_mfs', 'send_grease': 'S_grease', 'enable_webtransport': 'S_wt',
+           'enable_extended_connect': 'S_ec', 'enable_datagram': 'S_dg', 'max_webtransport_sessions': 'S_wtmax'}
+TARGETS = {'send_grease': 'T_grease', 'settings.max_field_section_size': 'T_field F_mfs',
+           'settings.enable_webtransport': 'T_field F_wt', 'settings.enable_extended_connect': 'T_field F_ec',
+           'settings.enable_datagram': 'T_field F_dg', 'settings.max_webtransport_sessions': 'T_field F_wtmax'}
+
+
+def builder_setters(path, build_call):
+    """every public setter of a Builder: its body must be assignments of its argument to config fields, then `self`"""
+    src = Source(path)
+    out = []
+    for m in re.finditer(r'pub\s+fn\s+(\w+)\s*\(\s*&mut\s+self\s*,\s*(\w+)\s*:\s*(\w+)\s*\)\s*->\s*&mut\s+Self\s*\{', src.text):
+        name, arg, ty = m.groups()
+        i = src.text.index('{', m.end() - 1)
+        j = match_close(src.text, i)
+        body = squash(src.text[i + 1:j])
+        if name == 'send_settings':
+            continue
+        if name not in SETTERS:
+            raise AnchorLost('unknown builder setter %s in %s' % (name, path))
+        mm = re.fullmatch(r'((?:self\.config\.[\w.]+=%s;)+)self' % re.escape(arg), body)
+        if not mm:
+            raise AnchorLost('builder setter %s is not a plain assignment: %s' % (name, body[:80]))
+        targets = re.findall(r'self\.config\.([\w.]+)=', mm.group(1))
+        if any(t not in TARGETS for t in targets):
+            raise AnchorLost('builder setter %s writes %s' % (name, targets))
+        if (ty == 'u64') != (name in ('max_field_section_size', 'max_webtransport_sessions')):
+            raise AnchorLost('builder setter %s argument type %s' % (name, ty))
+        out.append((name, targets))
+    if not out:
+        raise AnchorLost('no setters in ' + path)
+    if not re.search(r'fn\s+new\(\)\s*->\s*Self\s*\{\s*Builder\s*\{\s*config:\s*Default::default\(\),\s*\}\s*\}', src.text):
+        raise AnchorLost('Builder::new in ' + path)
+    if not re.search(build_call, src.text):
+        raise AnchorLost('Builder::build passes self.config in ' + path)
+    return out
+
+
 def macro_table(src, name):
     m = re.search(r'(?m)^' + name + r'!\s*\{', src.text)
     if not m:
@@ -86,20 +144,21 @@ def extract(repo):
     sub = Source.__new__(Source)
     sub.path, sub.raw, sub.text = fr.path, blk, blk
     body, _ = sub.fn_body('insert')
-    m = re.search(r'if\s+self\.len\s*(>=|>|==)\s*self\.entries\.len\(\)\s*\{\s*return\s+Err\(SettingsError::Exceeded\)', body)
-    if not m:
-        raise AnchorLost('insert: Exceeded check')
-    f['exceeded_cmp'] = m.group(1)
-    order = []
-    for mm2 in re.finditer(r'return\s+Err\(SettingsError::(\w+)', body):
-        order.append(mm2.group(1))
-    if sorted(order) != ['Exceeded', 'InvalidSettingValue', 'Repeated']:
-        raise AnchorLost('insert: checks ' + ','.join(order))
-    f['insert_checks'] = order
-    if not re.search(r'VarInt::from_u64\(id\.0\)\.is_err\(\)\s*\|\|\s*VarInt::from_u64\(value\)\.is_err\(\)', body):
-        raise AnchorLost('insert: varint range check')
-    if not re.search(r'self\.entries\[\.\.self\.len\]\.iter\(\)\.any\(\|\(i,\s*_\)\|\s*\*i\s*==\s*id\)', body):
-        raise AnchorLost('insert: repeated check')
+    blocks = {
+        'Exceeded': r'if self.len <<op:>=|>|==>> self.entries.len() { return Err(SettingsError::Exceeded); }',
+        'InvalidSettingValue': 'if VarInt::from_u64(id.0).is_err() || VarInt::from_u64(value).is_err() '
+                               '{ return Err(SettingsError::InvalidSettingValue(id, value)); }',
+        'Repeated': 'if self.entries[..self.len].iter().any(|(i, _)| *i == id) { return Err(SettingsError::Repeated(id)); }',
+    }
+    import itertools
+    found = None
+    for perm in itertools.permutations(sorted(blocks)):
+        m = tmpl(''.join(blocks[k] for k in perm) + 'self.entries[self.len] = (id, value); self.len += 1; Ok(())').fullmatch(squash(body))
+        if m:
+            found = (list(perm), m.group('op'))
+    if not found:
+        raise AnchorLost('Settings::insert body is not the three known checks followed by the store')
+    f['insert_checks'], f['exceeded_cmp'] = found
     body, _ = sub.fn_body('get')
     if re.search(r'in\s+self\.entries\.iter\(\)', body):
         f['get_scans_all'] = True
@@ -111,19 +170,19 @@ def extract(repo):
     if not re.search(r'self\.encode_header\(buf\);\s*for\s*\(id,\s*val\)\s*in\s*self\.entries\[\.\.self\.len\]\.iter\(\)\s*\{\s*id\.encode\(buf\);\s*buf\.write_var\(\*val\);', body):
         raise AnchorLost('Settings::encode shape')
     body, _ = sub.fn_body('decode')
-    m = re.search(r'while\s+buf\.has_remaining\(\)\s*\{\s*if\s+buf\.remaining\(\)\s*(<=|<)\s*(\w+)\s*\{\s*return\s+Err\(SettingsError::Malformed\)', body)
+    m = tmpl("""let mut settings = Settings::default();
+        while buf.has_remaining() {
+            if buf.remaining() <<op:<=|<>> <<k:\\w+>> { return Err(SettingsError::Malformed); }
+            let identifier = SettingId::decode(buf).map_err(|_| SettingsError::Malformed)?;
+            let value = buf.get_var().map_err(|_| SettingsError::Malformed)?;
+            if identifier.is_forbidden() { return Err(SettingsError::InvalidSettingId(identifier.0)); }
+            if identifier.is_supported() { settings.insert(identifier, value)?; } else { """ + TRACE + """ }
+        }
+        Ok(settings)""").fullmatch(squash(body))
     if not m:
-        raise AnchorLost('decode: short-buffer check')
-    f['dec_min_cmp'] = m.group(1)
-    f['dec_min'] = parse_int(m.group(2))
-    pf = body.find('identifier.is_forbidden()')
-    ps = body.find('identifier.is_supported()')
-    pi = body.find('settings.insert(identifier, value)?')
-    # the two identifier classes are disjoint, so their order is immaterial; the insert must be under is_supported
-    if pf < 0 or ps < 0 or pi < 0 or not (ps < pi):
-        raise AnchorLost('decode: forbidden/supported/insert')
-    if not re.search(r'if\s+identifier\.is_forbidden\(\)\s*\{\s*return\s+Err\(SettingsError::InvalidSettingId\(identifier\.0\)\)', body):
-        raise AnchorLost('decode: forbidden arm')
+        raise AnchorLost('Settings::decode body is not the known loop')
+    f['dec_min_cmp'] = m.group('op')
+    f['dec_min'] = parse_int(m.group('k'))
     # ---- capacities
     vi = Source(repo + '/h3/src/proto/varint.rs')
     e, _ = const_expr(vi, 'MAX_SIZE')
@@ -179,6 +238,20 @@ def extract(repo):
     if not f['grease_first'] and not all(pg > p for _, _, p in ins):
         raise AnchorLost('TryFrom<Config>: grease position')
     f['cfg_inserts'] = [(a, b) for a, b, _ in ins]
+    grease_rx = tmpl('if send_grease { match settings.insert(frame::SettingId::grease(), <<\\w+>>) '
+                     '{ Ok(_) => (), Err(_err) => { ' + TRACE + ' } } }').pattern
+    insert_rx = r'settings\.insert\(frame::SettingId::\w+,\w+(?:asu64)?,?\)\?;'
+    whole = tmpl('''type Error = frame::SettingsError;
+        fn try_from(value: Config) -> Result<Self, Self::Error> {
+            let mut settings = frame::Settings::default();
+            let Config { send_grease, #[cfg(test)] send_settings: _,
+                settings: Settings { max_field_section_size, enable_webtransport, enable_extended_connect,
+                                     enable_datagram, max_webtransport_sessions, }, } = value;
+            <<(?:GREASE|INSERT)+>>
+            Ok(settings)
+        }''').pattern.replace('GREASE', grease_rx).replace('INSERT', insert_rx)
+    if not re.fullmatch(whole, squash(blk)):
+        raise AnchorLost('TryFrom<Config>: body is not destructure, grease block, inserts, Ok(settings)')
     blk, sp, _ = cf.item_block(r'impl\s+From<&frame::Settings>\s+for\s+Settings\s*')
     spans['From<&frame::Settings>'] = sp
     rows = []
@@ -190,6 +263,11 @@ def extract(repo):
     if sorted(r[0] for r in rows) != sorted(FIELDS):
         raise AnchorLost('From<&frame::Settings>: rows')
     f['apply_rows'] = rows
+    want = 'fnfrom(settings:&frame::Settings)->Self{letdefaults:Self=Default::default();Self{' + ''.join(
+        '%s:settings.get(frame::SettingId::%s)%s.unwrap_or(defaults.%s),' % (a, b, '.map(|value|value!=0)' if c else '', a)
+        for a, b, c in rows) + '}}'
+    if squash(blk) != want:
+        raise AnchorLost('From<&frame::Settings>: body is more than the field rows')
     blk, sp, _ = cf.item_block(r'impl\s+Default\s+for\s+Settings\s*')
     spans['Default for Settings'] = sp
     dfl = {}
@@ -221,18 +299,61 @@ def extract(repo):
         raise AnchorLost('FrameStream: Settings error arm')
     co = Source(repo + '/h3/src/connection.rs')
     body, spans['send_control_stream_headers'] = co.fn_body('send_control_stream_headers')
-    m = re.search(r'frame::Settings::try_from\(self\.config\)\.map_err\(\|_err\|\s*\{\s*self\.handle_connection_error\(InternalConnectionError::new\(\s*Code::(\w+)', body)
+    m = re.search(r'let\s+settings\s*=\s*frame::Settings::try_from\(self\.config\)\.map_err\(\|_err\|\s*\{\s*self\.handle_connection_error\(InternalConnectionError::new\(\s*Code::(\w+),\s*"[^"]*"\.to_string\(\),\s*\)\)\s*\}\)\?;', body)
     if not m:
         raise AnchorLost('send_control_stream_headers: try_from error')
     f['code_setup_error'] = m.group(1)
     if not re.search(r'WriteBuf::from\(UniStreamHeader::Control\(settings\)\)', body):
         raise AnchorLost('send_control_stream_headers: control header write')
     body, spans['poll_control'] = co.fn_body('poll_control')
-    m = re.search(r'Ok\(Some\(Frame::Settings\(settings\)\)\)\s*=>\s*\{\s*if\s+!self\.got_peer_settings\s*\{\s*self\.got_peer_settings\s*=\s*true;\s*self\.set_settings\(\(&settings\)\.into\(\)\);'
-                  r'.*?\}\s*else\s*\{.*?Code::(\w+)', body, re.S)
+    sq = squash(body)
+    m = tmpl("""Ok(Some(Frame::Settings(settings))) => {
+            if !self.got_peer_settings {
+                self.got_peer_settings = true;
+                self.set_settings((&settings).into());
+                Frame::Settings(settings)
+            } else {
+                return Poll::Ready(Err(self.handle_connection_error(
+                    InternalConnectionError::new(Code::<<code:\\w+>>, <<STR>>.to_string(),),
+                )));
+            }
+        }
+        Ok(Some(frame)) if !self.got_peer_settings""").search(sq)
     if not m:
-        raise AnchorLost('poll_control: first SETTINGS handling')
-    f['code_second_settings'] = m.group(1)
+        raise AnchorLost('poll_control: SETTINGS arm is not the known one')
+    f['code_second_settings'] = m.group('code')
+    if not tmpl("""Err(FrameStreamError::Proto(frame_error)) => {
+            return Poll::Ready(Err(self.handle_connection_error(
+                InternalConnectionError::got_frame_error(frame_error),
+            )));
+        }
+        Ok(None)""").search(sq):
+        raise AnchorLost('poll_control: protocol-error arm is not the known one')
+    ce = Source(repo + '/h3/src/error/connection_error_creators.rs')
+    body, spans['handle_connection_error'] = ce.fn_body('handle_connection_error')
+    if not tmpl("""if let Some(ref error) = self.handled_connection_error { return error.clone(); }
+            let err = self.set_conn_error(error.into());
+            let err = self.close_if_needed(err);
+            self.convert_to_connection_error(err)""").fullmatch(squash(body)):
+        raise AnchorLost('handle_connection_error body')
+    body, _ = ce.fn_body('close_if_needed')
+    if not tmpl("""match error {
+            ErrorOrigin::Internal(ref internal_error) => {
+                self.close_connection(internal_error.code, internal_error.message.clone())
+            }""").match(squash(body)):
+        raise AnchorLost('close_if_needed: internal errors close with their own code')
+    body, _ = ce.fn_body('close_connection')
+    if squash(body) != squash('self.conn.close(code, reason.as_bytes())'):
+        raise AnchorLost('close_connection body')
+    # ---- builders
+    f['client_setters'] = builder_setters(repo + '/h3/src/client/builder.rs',
+                                          r'ConnectionInner::new\(quic,\s*conn_state\.clone\(\),\s*self\.config\)\.await\?')
+    f['server_setters'] = builder_setters(repo + '/h3/src/server/builder.rs',
+                                          r'ConnectionInner::new\(conn,\s*Arc::new\(shared\),\s*self\.config\)\.await\?')
+    body, _ = co.fn_body('new', after=co.text.index('pub async fn new'))
+    if not re.search(r'send_grease_frame:\s*config\.send_grease,\s*config,', body) or \
+            not re.search(r'conn_inner\.send_control_stream_headers\(\)\.await\?;\s*Ok\(conn_inner\)', body):
+        raise AnchorLost('ConnectionInner::new: config stored, control headers sent')
     ss = Source(repo + '/h3/src/shared_state.rs')
     body, _ = ss.fn_body('settings')
     if not re.search(r'\.settings\s*\.get\(\)\s*\.map\(Cow::Borrowed\)\s*\.unwrap_or_default\(\)', body):
@@ -294,7 +415,13 @@ def render(f):
     L.append('Definition default_field (f : cfg_field) : N :=\n  match f with %s end.' % ' | '.join(
         '%s => %d' % (FCON[k], f['defaults'][k]) for k in FIELDS))
     L.append('Definition default_send_grease : bool := %s.' % ('true' if f['default_grease'] else 'false'))
-    L.append('(* error codes *)')
+    L.append('(* the public setters of client::Builder and server::Builder: which Config fields each one assigns its argument to *)')
+    L.append('Inductive setter := S_mfs | S_grease | S_wt | S_ec | S_dg | S_wtmax.')
+    L.append('Inductive cfg_target := T_grease | T_field (f : cfg_field).')
+    for role in ('client', 'server'):
+        L.append('Definition %s_setters : list (setter * list cfg_target) := [%s].' % (role, '; '.join(
+            '(%s, [%s])' % (SETTERS[n], '; '.join(TARGETS[t] for t in ts)) for n, ts in f[role + '_setters'])))
+    L.append('(* error codes; handle_connection_error closes the connection with the code of the error it returns *)')
     L.append('Definition code_settings_error : N := %s.' % f['code_settings_error'])
     L.append('Definition code_setup_error : N := %s.' % f['code_setup_error'])
     L.append('Definition code_second_settings : N := %s.' % f['code_second_settings'])
